@@ -139,10 +139,9 @@ def wellformed(y, kind, n, p=1, msl=None, M=None, band=None, cbs=False, det=None
     if "ilocs" not in y.columns:
         return probs + ["no 'ilocs' column"]
     if kind == "change":
-        if len(y) and str(y["ilocs"].dtype) != "int64":
-            probs.append(f"ilocs dtype {y['ilocs'].dtype} != int64")
-        if len(y) == 0 and str(y["ilocs"].dtype) != "int64":
-            probs.append(f"empty ilocs dtype {y['ilocs'].dtype} != int64")
+        # "integers": any integer dtype satisfies the statement (int64 is what the pinned tree returns)
+        if not (pd.api.types.is_integer_dtype(y["ilocs"].dtype) and not pd.api.types.is_bool_dtype(y["ilocs"].dtype)):
+            probs.append(f"ilocs dtype {y['ilocs'].dtype} is not an integer dtype")
         c = [int(v) for v in y["ilocs"]]
         if any(c[i + 1] <= c[i] for i in range(len(c) - 1)):
             probs.append(f"changepoints {c} not strictly increasing")
@@ -163,8 +162,8 @@ def wellformed(y, kind, n, p=1, msl=None, M=None, band=None, cbs=False, det=None
             return probs + [f"ilocs dtype {y['ilocs'].dtype} is not an interval dtype"]
         if y["ilocs"].array.closed != "left":
             probs.append(f"intervals closed='{y['ilocs'].array.closed}', not left")
-        if str(y["ilocs"].dtype.subtype) != "int64":
-            probs.append(f"interval subtype {y['ilocs'].dtype.subtype} != int64")
+        if not pd.api.types.is_integer_dtype(y["ilocs"].dtype.subtype):
+            probs.append(f"interval subtype {y['ilocs'].dtype.subtype} is not an integer dtype")
     ev = [(int(a.left), int(a.right)) for a in y["ilocs"]]
     last = 0
     for s, e in ev:
